@@ -71,8 +71,15 @@ def run(chk):
                          "order randomly permuted/reversed and vertices relabelled -> sort_faces; fan-triangulated with random triangle reversal -> "
                          "merge_faces. non-trivial = has a non-triangular face (merging/sorting matters)")
     cases, meta = [], []
-    for _ in range(nshape):
+    for ishape in range(nshape):
         kind, V = gen.convex_set(rng, kinds=("ellipsoid", "lattice", "lattice", "prismatic", "prismatic", "flat", "needle", "creased", "chamfered"))
+        if ishape % 6 == 0:
+            kind, V = gen.convex_set(rng, kinds=("ellipsoid",))
+        if kind == "ellipsoid" and (ishape % 6 == 0 or rng.random() < 0.6):
+            # far from the origin, by an offset that is NOT on a dyadic grid (all faces are triangles here, so rounding the sum cannot break
+            # a planar face): lengths and vectors of edges are differences of vertices and must not lose the offset's digits
+            V = V + rng.uniform(-1.0, 1.0, 3) * 10.0 ** rng.uniform(3, 6)
+            kind = "ellipsoid/far"
         for order in range(2):
             Vp = V[rng.permutation(len(V))] if order else V
             st, p = C.excname(coxeter.shapes.ConvexPolyhedron, Vp)
@@ -163,7 +170,7 @@ def run(chk):
                 chk.violation(tag + ":num_edges", dict(desc, impl=int(p.num_edges), exact=len(edges)))
             ev = np.array(p.edge_vectors); el = np.array(p.edge_lengths)
             exv = np.array([V[j] - V[i] for i, j in edges])
-            if not (np.allclose(ev, exv, rtol=0, atol=1e-12 * np.max(np.abs(V))) and np.allclose(el, np.linalg.norm(exv, axis=1), rtol=1e-12)):
+            if not (np.allclose(ev, exv, rtol=0, atol=1e-12 * np.max(np.abs(V))) and np.allclose(el, np.linalg.norm(exv, axis=1), rtol=1e-12, atol=8 * 2.3e-16 * np.max(np.abs(V)))):
                 chk.violation(tag + ":edge_vectors", dict(desc))
         # equations: unit outward normals whose plane contains the face
         eq = np.array(p.equations if hasattr(p, "equations") else p._equations)
